@@ -256,6 +256,9 @@ func checkC05(rep *core.Report) {
 	r8 := rep.Rule("R05.8", "the value handed to the encoders has the Go type, width and signedness of the element's abstract data type", 40)
 	r8b := rep.Rule("R05.8b", "type names of the information model map to their own abstract types", 20)
 	checkInterpretTable(rep, r8, r8b)
+	// the encoded document is still what is published only if no back-end interprets it on the way out (also R14.1)
+	r9 := rep.Rule("R05.9", "no back-end uses the encoded document as a printf-style format on its way to the queue", 5)
+	checkPayloadNotFormat(prog, r9)
 	r7 := rep.Rule("R05.7", "the encoders write only their own buffer and locals, never package-level scratch state", 1)
 	{
 		var encs []*ssa.Function
